@@ -266,8 +266,9 @@ func oracleKern(b []byte, info map[glyph.Pair]funit.Int16, obs string, elapsed t
 	if obs == "panic" {
 		return "kern.Read panicked", "c15-kern-panic"
 	}
-	if elapsed > 5*time.Second {
-		return fmt.Sprintf("kern.Read took %v on %d bytes", elapsed, len(b)), "c15-kern-slow"
+	if elapsed > time.Second {
+		// inputs are at most a few hundred KB; linear work takes milliseconds
+		return fmt.Sprintf("kern.Read took %v on %d bytes", elapsed, len(b)), "time:kern.Read:overlapping-subtables"
 	}
 	wf, values, overflow := refKern(b)
 	if !wf {
@@ -617,6 +618,14 @@ func checkSeq(out []glyph.Info, exp []expGlyph) string {
 	return ""
 }
 
+func copyMap(m map[string]bool) map[string]bool {
+	res := make(map[string]bool, len(m))
+	for k, v := range m {
+		res[k] = v
+	}
+	return res
+}
+
 func textOf(out []glyph.Info) []rune {
 	var t []rune
 	for _, g := range out {
@@ -668,6 +677,19 @@ func (c layCase) run() (impl, fail, sig string, err error) {
 		}
 		if d := checkSeq(out, exp); d != "" {
 			return obs, "no rule applies, but " + d, "c15-layout-identity", nil
+		}
+	}
+	// a nil switch map means the default feature set
+	if c.GSW.Nil || c.PSW.Nil {
+		gsw, psw := c.GSW.goMap(), c.PSW.goMap()
+		if gsw == nil {
+			gsw = copyMap(gtab.GsubDefaultFeatures)
+		}
+		if psw == nil {
+			psw = copyMap(gtab.GposDefaultFeatures)
+		}
+		if _, obs3 := callLayout(f, lang, gsw, psw, s); obs3 != obs {
+			return obs, "nil switch maps give " + obs + ", the default feature sets given explicitly " + obs3, "c15-layout-defaults", nil
 		}
 	}
 	// a Layouter that has been used before gives the same result
